@@ -81,12 +81,13 @@ def kernel_nontrivial(case):
 
 
 def compare_step(got, exp, cond, what, rec, minu=None, **sig):
+    # cond = max(condition number of the line systems, growth factor of elimination without pivoting on them)
     tol = max(1e-8, 100 * EPS * cond)
-    if minu is not None and np.isfinite(minu):
-        # the Chang-Cooper weight (-e w + e V - V)/(w - e w) is computed with relative error ~eps/|u| for small |u| = |2 M dx / V|
-        tol = max(tol, 50 * EPS / minu)
-        if tol > 1e-4:
-            raise Reject()
+    if tol > 1e-4:
+        rec.label('vanishing pivot (documented solver unstable; not judged)')
+        raise Reject()
+    # (before the repair of _compute_delj / compute_delj the Chang-Cooper weight lost accuracy as eps/|u| for small |u| and this
+    # tolerance had to be widened accordingly; dadi now uses the series there, so no allowance is made)
     scale = np.abs(exp).max()
     if not np.isfinite(got).all():
         raise Violation('%s: result contains %d non-finite entries (reference is finite)' % (what, (~np.isfinite(got)).sum()), **sig)
@@ -273,8 +274,7 @@ def r5(case, rec):
     T = (case['steps'] - 1 + case['frac']) * Integration.timescale_factor / max_rate(case)
     tol = 1e-9
     if case['delj']:
-        # Chang-Cooper exponents u = 2 M dx / V over all lines: overflow cases go to R6; small |u| limits the accuracy with
-        # which the documented weight formula can be evaluated (relative error ~eps/|u|), differently in numpy and in C
+        # Chang-Cooper exponents u = 2 M dx / V over all lines: overflow cases go to R6
         maxu, minu = 0.0, np.inf
         for ax in range(nd):
             ms = [case['ms'][ax][j] for j in range(nd) if j != ax]
@@ -282,11 +282,6 @@ def r5(case, rec):
             maxu, minu = max(maxu, info['maxu']), min(minu, info['minu'])
         if maxu > 300:
             rec.label('delj-overflow (left to R6)')
-            raise Reject()
-        if np.isfinite(minu):
-            tol = max(tol, 100 * EPS / minu * case['steps'])
-        if tol > 1e-5:
-            rec.label('delj-illconditioned (not judged)')
             raise Reject()
     name = DRIVERS[nd].__name__
     rec.case(case, any(g != 0 for g in case['gammas']), [name, 'delj=%d' % case['delj'], 'steps=%d' % case['steps']])
